@@ -1,5 +1,6 @@
 /* C12 - GF(2^8) scalar arithmetic and tables are a correct field. Complete enumeration. */
 #include "verif.h"
+#include <sys/mman.h>
 #include "ref_gf.h"
 #include "erasure_code.h"
 #include <immintrin.h>
@@ -222,6 +223,36 @@ int main(int argc, char **argv)
 		}
 		free(a);
 		g_reset();
+	}
+	/* thorough tier only: a grid whose tables exceed 4 GiB (k = 16384, rows = 8193: 2^27 + 16384 coefficients): the byte offset 32 * i of
+	 * table i does not fit 32 bits. The whole block is really written (about 4.3 GB of memory); entries 0..70000, the 16 K around 2^27
+	 * and every 4099th are compared with the reference expansion */
+	if (v_thorough && v_shard == 2 % v_nshards) {
+		const size_t K2 = 16384, R2 = 8193, N2 = K2 * R2;
+		uint8_t *a2 = malloc(N2), *t2 = mmap(NULL, N2 * 32, PROT_READ | PROT_WRITE, MAP_PRIVATE | MAP_ANONYMOUS | MAP_NORESERVE, -1, 0);
+		if (!a2 || t2 == MAP_FAILED)
+			v_not_exhaustive("4 GiB table grid skipped: not enough memory");
+		else {
+			for (size_t i = 0; i < N2; i++)
+				a2[i] = (uint8_t)(0x1d + i * 7 + (i >> 8) + (i >> 27) * 101);
+			ec_init_tables_base((int)K2, (int)R2, a2, t2);
+			v_eval();
+			for (size_t i = 0; i < N2; i++) {
+				if (!(i <= 70000 || (i + 8192 >= ((size_t)1 << 27) && i <= ((size_t)1 << 27) + 8192) || i % 4099 == 0 || i + 70000 >= N2))
+					continue;
+				int bad = 0;
+				for (int x = 0; x < 32 && !bad; x++)
+					bad = t2[32 * i + x] != (x < 16 ? rgf_mul_slow(a2[i], x) : rgf_mul_slow(a2[i], (x - 16) << 4));
+				if (bad) {
+					snprintf(key, sizeof key, "ec_init_tables_base beyond-4GiB grid c=%02x", a2[i]);
+					v_violation(key, "k=%zu rows=%zu: table %zu (byte offset %zu) is not the expansion of its coefficient", K2, R2, i, 32 * i);
+					break;
+				}
+			}
+			v_count("tables_beyond_4GiB_grids", 1);
+			munmap(t2, N2 * 32);
+		}
+		free(a2);
 	}
 	v_sample("gf_mul(0x53,0xca)=0x%02x ref=0x%02x", gf_mul(0x53, 0xca), rgf_mul_slow(0x53, 0xca));
 	v_sample("gf_inv(0x02)=0x%02x", gf_inv(2));
